@@ -93,6 +93,10 @@ def o_seq(case):
         cls.append("ubx-with-sync-bytes")
     if "nmea" in kinds:
         cls.append("has-nmea")
+    if any(i.get("huge") for i in items):
+        cls.append("ubx-length>=32767")
+    if any(i["k"] == "frame" and len(i["b"]) == 16 for i in items):
+        cls.append("two-byte-payload-frame")
     if case["stream"] == "socket" and case["cuts"]:
         # a cut inside some frame header
         off = 0
@@ -138,7 +142,7 @@ SUBS = [
         strategy=s_seq,
         examples=(150, 4000),
         rule="see property rule",
-        need={"zero-length-frame": 1, "has-1023-frame": 1, "ubx-with-sync-bytes": 1, "socket": 1, "buffered": 1, "qoe2": 1},
+        need={"ubx-length>=32767": 1, "two-byte-payload-frame": 1, "zero-length-frame": 1, "has-1023-frame": 1, "ubx-with-sync-bytes": 1, "socket": 1, "buffered": 1, "qoe2": 1},
         sample=_sample,
     ),
 ]
